@@ -23,6 +23,7 @@ structure WState where
   pending : List (Nat × WOp × WRes) := []   -- model's nested results still to be matched
   mon : WSpec := {}
   monDead : Bool := false
+  afterMaint : Bool := false   -- between a maintain that had queued actions and the next mutating op
   -- statistics
   cases : Nat := 0
   lines : Nat := 0
@@ -95,7 +96,7 @@ def worldLine (st : WState) (line : String) : WState × List String :=
   | ["case", id] =>
     let (st, outs) := st.closeCase
     ({ st with caseHash := 7, caseNontrivial := false, caseId := id, lineNo := 0, model := {},
-               diverged := false, pending := [], mon := {}, monDead := false, cases := st.cases + 1 }, outs)
+               diverged := false, pending := [], mon := {}, monDead := false, afterMaint := false, cases := st.cases + 1 }, outs)
   | lt =>
     let (r, ledger) := splitLedger r0
     let st := { st with lineNo := st.lineNo + 1, lines := st.lines + 1,
@@ -160,11 +161,29 @@ def worldLine (st : WState) (line : String) : WState × List String :=
             let step2 := match step1, ledger, nestedTag with
               | .ok s, some d, none => (match s.destroyed d with | .ok s => s.checkLeak | .error w => .error w)
               | x, _, _ => x
+            let isProbe := match op with
+              | .get .. | .has .. | .count _ | .isEmpty _ | .mask _ | .slice _ | .events _
+              | .ent (.alive _) | .ent (.walive _) | .ent .ejoin => true
+              | _ => false
+            let hadQueue := !st.mon.queue.isEmpty
+            let afterMaint := match op, nestedTag with
+              | .ent .merge, none => hadQueue
+              | _, some _ => st.afterMaint
+              | _, none => if isProbe then st.afterMaint else false
+            let st := { st with afterMaint := afterMaint }
+            let shown := match nestedTag with
+              | some t => s!"in {t} {l}"
+              | none => l
             match step2 with
             | .ok s' => ({ st with mon := s' }, [])
             | .error why =>
+              let tag := (why.take 3).toString
+              let extra :=
+                if tag != "C09" && tag != "C00" && (nestedTag.isSome || st.afterMaint) then
+                  [s!"MON C09 case={st.caseId} line={st.lineNo} C09 state seen by / left after the lazily queued actions of a maintain differs from queue-order semantics ({why}) op=[{shown}] impl=[{r}]"]
+                else []
               ({ st with monDead := true, mons := st.mons + 1 },
-               [s!"MON {why.take 3} case={st.caseId} line={st.lineNo} {why} op=[{l}] impl=[{r}]"])
+               [s!"MON {tag} case={st.caseId} line={st.lineNo} {why} op=[{shown}] impl=[{r}]"] ++ extra)
         (st, out1 ++ out2)
 
 partial def worldLoop (h : IO.FS.Stream) (st : WState) : IO WState := do
